@@ -69,7 +69,8 @@ class FIBDemux(Device):
             self.ends[flow_id].put(packet)
         else:
             try:
-                assert self.outs
+                if not self.outs:
+                    raise KeyError(f'no output for flow {flow_id}')
                 self.outs[self._fib[packet.flow_id]].put(packet)
             except (KeyError, IndexError, ValueError) as exc:
                 print("FIB Demux Error: " + str(exc))
